@@ -68,6 +68,7 @@ def stateStr (s : Sys) : String :=
   match s.disk.state with
   | .absent => "absent"
   | .corrupt => "corrupt"
+  | .empty => "zero"
   | .ok [] => "empty"
   | .ok tas =>
     let srt := sortBy (fun (a b : TA) => a.key.tag ≤ b.key.tag) tas
@@ -77,6 +78,7 @@ def tombStr (s : Sys) : String :=
   match s.disk.tomb with
   | .absent => "absent"
   | .corrupt => "corrupt"
+  | .empty => "zero"
   | .ok [] => "empty"
   | .ok ms => ",".intercalate ((sortBy (fun (a b : Nat) => a ≤ b) ms).map toString)
 
@@ -162,7 +164,13 @@ def step (st : State) (w : List String) : State × String :=
     (st', obs st'.sys)
   | ["autota", "damage", what] =>
     if !st.started then (st, "bad-op") else
-    let d : Option Damage := if what == "tomb" then some .tomb else if what == "state" then some .state else none
+    -- a truncated gob stream is undecodable like garbage; a zero-length file is its own outcome
+    let d : Option Damage :=
+      if what == "tomb" || what == "tomb-trunc" then some .tomb
+      else if what == "state" || what == "state-trunc" then some .state
+      else if what == "tomb-empty" then some .tombEmpty
+      else if what == "state-empty" then some .stateEmpty
+      else none
     match d with
     | some d =>
       let st' := { st with sys := AutoTA.step params st.cfg st.sys (.damage d) }
